@@ -24,6 +24,7 @@ import vlib
 #   files that exist only on disk; 5 untitled:Untitled-1: a document without a file path (model uri 100)
 URIS = [0, 1, 2, 3, 4, 100]
 UNTITLED = 5
+WATCH = [0, 1, UNTITLED]  # documents whose stored state is compared after every step (the others are never opened)
 # Text kinds:  G plain | I imports b | J imports c, d, n, a missing module and n again (visit order n, b, d, c) |
 #   R imports a (document 1 only) | K a const declaration | B parse error | L lex error |
 #   M didChange with TWO content changes (the last one counts) | E didChange with NO content change | C close
@@ -343,7 +344,7 @@ def make_history(seq, rng=None, policy="up"):
         elif policy == "down":
             ver[u] = ver.get(u, 10) - 1
         else:
-            ver[u] = rng.choice([0, -1, 1, 2, 2**31 - 1, -2**31, 7])
+            ver[u] = rng.choice([0, -7, 1, 2, 2**31 - 1, -2**31, 7])  # not -1: the model's rendering uses it for `no version`
         hist.append((k, u, ver[u]))
     return hist
 
@@ -431,9 +432,9 @@ def gen_cases(chk, gates):
         for h in histories(4, [0, 1, UNTITLED], rng, 600 if not thorough else 4000, policy="mixed"):
             cases.append(flip_opens(Case(h, sequential(h), "seq-long"), rng))
         return cases
-    budget = {"two": 30, "two_classic": 140, "three": 2, "three_key": 150, "multidoc": 450, "illegal": 200, "long": 80, "burst": 60}
+    budget = {"two": 30, "two_classic": 140, "three": 2, "three_key": 150, "multidoc": 350, "illegal": 150, "long": 60, "burst": 50}
     if thorough:
-        budget = {"two": 400, "two_classic": 10**6, "three": 40, "three_key": 1500, "multidoc": 3000, "illegal": 1500, "long": 800, "burst": 600}
+        budget = {"two": 400, "two_classic": 10**6, "three": 20, "three_key": 1500, "multidoc": 3000, "illegal": 1500, "long": 800, "burst": 600}
     for h in histories(1, [0, 1, UNTITLED]):
         cases.append(Case(h, sequential(h), "one"))
     # two notifications on one document: every kind pair, all schedules (capped)
@@ -574,7 +575,7 @@ def compare(case, r, m, gates):
         if gates:
             if t["lock"] != mlock:
                 diffs.append("step %d: lock model %d, server %s" % (i, mlock, t["lock"]))
-            for u, (mv, mt) in enumerate(mdocs):
+            for u, (mv, mt) in zip(WATCH, mdocs):
                 kind = None if mv == -1 and mt == -1 else case.kind_of(mt)
                 if isinstance(t["docs"], list):
                     want = None if kind is None else [mv, text_src(kind, mt)]
@@ -589,7 +590,7 @@ def compare(case, r, m, gates):
                     if t["answers"][u] != want:
                         diffs.append("step %d: definition/completion(document %d) model %r, server %r" % (i, u, want, t["answers"][u]))
         else:
-            for u, (mv, mt) in enumerate(mdocs):
+            for u, (mv, mt) in zip(WATCH, mdocs):
                 want = None if mv == -1 and mt == -1 else hover_of(case.kind_of(mt), mt)
                 if t.get("hover") and t["hover"][u] != want:
                     diffs.append("step %d: document %d hover model %r, server %r" % (i, u, want, t["hover"][u]))
@@ -766,7 +767,7 @@ def _run(chk, res, gates, binary, docs):
     if model_ok:
         req = "From Coq Require Import ZArith List Bool.\nFrom Verif Require Import C18.Model.\nImport ListNotations.\nOpen Scope Z_scope."
         ty = "list note * list nat"
-        fn = ("fun c => (render " + VARIANT + " [%s] (fst c) (snd c), " % "; ".join(map(str, URIS)) +
+        fn = ("fun c => (render " + VARIANT + " [%s] (fst c) (snd c), " % "; ".join(str(URIS[u]) for u in WATCH) +
               "(known_syntax (fst c), former_dep (fst c), former_overlap (fst c) (snd c)))")
         model = vlib.coq_eval(req, ty, fn, [c.coq() for c in cases], shard=150, tag="c18")
     else:
@@ -805,11 +806,11 @@ def _run(chk, res, gates, binary, docs):
                 # suppressed only if the case lies in a LISTED class; for the model class additionally the server
                 # must have done exactly what the model predicts for it
                 listed = [x for x in cls if x in known and x == "lsp-error-keeps-old"]
-                if pyc:
-                    for x in pyc:
-                        suppressed[x] = suppressed.get(x, 0) + 1
-                elif listed and not dd and model is not None:
+                if listed and not dd and model is not None:
                     for x in listed:
+                        suppressed[x] = suppressed.get(x, 0) + 1
+                elif pyc:
+                    for x in pyc:
                         suppressed[x] = suppressed.get(x, 0) + 1
                 else:
                     fails.append({"case": c.key(), "tag": c.tag, "history": c.notes_json(), "schedule": c.sched,
@@ -825,8 +826,8 @@ def _run(chk, res, gates, binary, docs):
         pyc = [x for x in py_classes(c) if x in known and x == "lsp-multi-change-first"]
         if not why:
             nat_ok += 1
-        elif pyc or (py_known_syntax(c) and "lsp-error-keeps-old" in known and r.get("quiescent")):
-            x = pyc[0] if pyc else "lsp-error-keeps-old"
+        elif (py_known_syntax(c) and "lsp-error-keeps-old" in known and r.get("quiescent")) or pyc:
+            x = "lsp-error-keeps-old" if (py_known_syntax(c) and "lsp-error-keeps-old" in known and r.get("quiescent")) else pyc[0]
             suppressed[x] = suppressed.get(x, 0) + 1
         else:
             fails.append({"case": c.key(), "tag": c.tag + " (no gates)", "history": c.notes_json(), "schedule": c.sched, "natural": True,
